@@ -24,6 +24,7 @@ def c03CoefK (seed kind : Nat) (ci by_ bx k : Nat) : Int :=
   | 4 => if k == 63 then (if h % 2 == 1 then 1 else -3) else if k == 0 then ((h % 9 : Nat) : Int) - 4 else 0
   | 5 => 0
   | 7 => if k == 0 then ((h % 9 : Nat) : Int) - 4 else (if h % 2 == 1 then 1 else -1) * (8 + (((h >>> 3) % 100 : Nat) : Int))
+  | 8 => if by_ % 61 == 60 && bx == 177 then (if k == 0 then 9 else (((h >>> 4) % 7 : Nat) : Int) - 3) else (if k == 0 then 5 else 0)
   | _ => if (h >>> 20) % 97 != 0 then (if k == 0 then 5 else 0) else (((h >>> 4) % 7 : Nat) : Int) - 3
 
 /-- `c03_script` of the harness (progressive branch): the seeded generator of valid progressive scan scripts -/
